@@ -47,19 +47,21 @@ PROPS = {
     "C03": {"lean": ["QF.Props.C03", "QF.Props.C03Spec", "QF.Props.C03Compare"], "extra_ns": ["QF.Props.C03Compare"],
             "sections": [hist("hist", ["sort"]),
                          {"section": "sortadv", "quick": 300, "thorough": 3000, "cover_ops": {"SA"}}]},
-    "C04": {"lean": ["QF.Props.C04", "QF.Props.C04Spec", "QF.Props.C03Compare"], "extra_ns": ["QF.Props.C04Spec", "QF.Props.C03Compare"],
+    "C04": {"lean": ["QF.Props.C04", "QF.Props.C04Spec", "QF.Props.C03Compare", "QF.Props.C04Hash", "QF.Props.C04Aggregations"], "extra_ns": ["QF.Props.C04Spec", "QF.Props.C03Compare", "QF.Props.C04Hash", "QF.Props.C04Aggregations"],
             "sections": [hist("hist", ["groupagg", "groupframes", "permute", "grouptest"], quick=300, cover=["groupagg", "groupframes"]),
-                         {"section": "grpadv", "quick": 600, "thorough": 6000, "cover_ops": {"GA"}}]},
-    "C05": {"lean": ["QF.Props.C05", "QF.Props.C05Distinct", "QF.Props.C04", "QF.Props.C04Spec", "QF.Props.C03Compare"], "extra_ns": ["QF.Props.C04", "QF.Props.C04Spec", "QF.Props.C03Compare"], "sections": [hist("hist", ["distinct"])]},
+                         {"section": "grpadv", "quick": 600, "thorough": 6000, "cover_ops": {"GA"}},
+                         {"section": "grpadv", "tag": "grpbig", "opt": "big=1", "quick": 1, "thorough": 4, "cover_ops": {"GB"}}]},
+    "C05": {"lean": ["QF.Props.C05", "QF.Props.C05Distinct", "QF.Props.C04", "QF.Props.C04Spec", "QF.Props.C03Compare", "QF.Props.C04Hash"], "extra_ns": ["QF.Props.C04", "QF.Props.C04Spec", "QF.Props.C03Compare", "QF.Props.C04Hash"], "sections": [hist("hist", ["distinct"])]},
     "C06": {"lean": ["QF.Props.C06", "QF.Props.C06Apply"],
             "sections": [{"section": "hist", "tag": "hist-wit", "opt": "wit=1", "quick": 1, "thorough": 1, "cover_ops": {"fapply"}},
                          hist("hist", ["apply", "fapply", "rownums"])]},
     "C07": {"lean": ["QF.Props.C07", "QF.Props.C07Eval", "QF.Props.C07Functions", "QF.Props.C06"], "extra_ns": ["QF.Props.C07Eval", "QF.Props.C07Functions"], "sections": [hist("hist", ["eval", "eval", "permute"], quick=300, cover=["eval"])]},
-    "C08": {"lean": ["QF.Props.C08", "QF.Props.C08Project"],
+    "C08": {"lean": ["QF.Props.C08", "QF.Props.C08Project", "QF.Props.C08Guards"], "extra_ns": ["QF.Props.C08Guards"],
             "sections": [hist("hist", ["select", "drop", "slice", "copy"], cover=["new", "select", "drop", "slice", "copy"]),
                          {"section": "hist", "tag": "hist-new", "opt": "newonly=1", "quick": 150, "thorough": 1500, "cover_ops": {"new"}}]},
     "C09": {"lean": ["QF.Props.C09", "QF.Props.C09Equals", "QF.Props.C06"], "extra_ns": ["QF.Props.C06"],
-            "sections": [dict(hist("hist", ["equals", "rebuild", "rebuild", "sort", "permute", "filter", "slice", "string", "tocsv", "tojson", "apply", "rownums", "copy"], quick=250), cover_ops=None)]},
+            "sections": [dict(hist("hist", ["equals", "rebuild", "rebuild", "sort", "permute", "filter", "slice", "string", "tocsv", "tojson", "apply", "rownums", "copy"], quick=250), cover_ops=None),
+                         {"section": "jsonsweep", "quick": 1, "thorough": 6, "cover_ops": {"JS"}}]},
     "C11": {"lean": ["QF.Props.C11", "QF.Props.C01Ops"], "extra_ns": ["H", "QF.Props.C01"],
             "sections": [{"section": "conc", "race": True, "quick": 150, "thorough": 2000, "cover_ops": {"CC"}}],
             "rule": "cases = batches of 6..12 operations (Filter incl. like/ilike, Sort, Distinct, GroupBy/Aggregate, Apply, FilteredApply, Eval with one shared context, Select/Slice/Copy, ToCSV/ToJSON/String, Equals) "
@@ -86,6 +88,7 @@ PROPS = {
     "C14": {"lean": ["QF.Props.C14", "QF.Props.C14Quote", "QF.Props.C14ToJson", "QF.Props.C16"], "extra_ns": ["QF.Props.C14ToJson", "QF.Props.C16"],
             "sections": [dict(hist("hist", ["tojson", "tojson", "sort", "filter", "apply"], quick=250), cover_ops={"tojson"}),
                          dict({"section": "hist", "tag": "hist-jsonfloat", "opt": "floatheavy=1," + mix("tojson", "tojson", "sort", "filter"), "quick": 150, "thorough": 1500}, cover_ops={"tojson"}),
+                         {"section": "jsonsweep", "quick": 1, "thorough": 6, "cover_ops": {"JS"}},
                          {"section": "quote", "quick": 300, "thorough": 5000, "cover_ops": {"QS"}}],
             "rule": "cases = ToJSON of a derived frame; the bytes are parsed with the spec's RFC 8259 parser (validity) and every record must denote its row (ints exactly, floats parsing back to identical bits, "
                     "NaN/null as null, strings and names decoded with invalid bytes as U+FFFD); ReadJSON of the bytes must reproduce the frame where the property promises it"},
@@ -112,7 +115,7 @@ PROPS = {
                          {"section": "csvraw", "tag": "csvrawfaults", "opt": "faults=1", "quick": 60, "thorough": 600, "cover_ops": {"C"}},
                          {"section": "csvread", "tag": "csvreadfaults", "opt": "faults=1", "quick": 400, "thorough": 4000, "cover_ops": {"CV"}}],
             "rule": "cases = (document, schedule, failing call number); csvraw enumerates every call number of the chosen schedule per document (schedules of more than 160 calls: the first 64, the last 32 and 64 drawn ones); distinct by transcript line"},
-    "C10": {"lean": ["QF.Props.C10", "QF.Props.C10Sticky", "QF.Props.C06", "QF.Props.C06Apply", "QF.Props.C08Project"], "extra_ns": ["QF.Props.C10Sticky", "QF.Props.C06", "QF.Props.C08"], "sections": [dict(hist("hist", []), cover_ops=None)]},
+    "C10": {"lean": ["QF.Props.C10", "QF.Props.C10Sticky", "QF.Props.C06", "QF.Props.C06Apply", "QF.Props.C08Project", "QF.Props.C08Guards"], "extra_ns": ["QF.Props.C10Sticky", "QF.Props.C06", "QF.Props.C08", "QF.Props.C08Guards"], "sections": [dict(hist("hist", []), cover_ops=None)]},
 }
 
 NOT_APPLICABLE = {}
@@ -163,7 +166,7 @@ LEVEL_TEXT = {
                "Lean 4 proof (unbounded induction over the sorter mirror) + differential correspondence"),
     "C04": _lt("groupBy_partition for the mirror of the open-addressing table, for every hash function, collision pattern and growth step; Aggregate/QFrames of the real code compared with the spec's groups as multisets.",
                "Lean 4 proof (table invariant, any hash function) + differential correspondence",
-               "runtime.memhash is a parameter (any function); that equal keys hash equally is validated per cell type by T2."),
+               "runtime.memhash is a parameter (any function); that keys which compare Equal hash equally is proved from today's source for every cell of every column type (C04Hash.gen_hash_respects_equality over the regenerated Hash terms); the built-in aggregations of today's source are proved equal to the spec's on every non-empty group (C04Aggregations.gen_agg_semantics)."),
     "C05": _lt("Distinct uses the same table as GroupBy (collectIx=false); the partition theorem of C04 gives one representative per key class; results of the real code are checked to be a sub-multiset with exactly one row per key class.",
                "Lean 4 proof (shared with C04) + differential correspondence"),
     "C06": _lt("setColumn_wf/setColumn_abs/applyFn1_rowwise for the frame mirror; Apply/FilteredApply/WithRowNums of the real code compared exactly with the spec on derived frames, with a catalogue of functions defined identically in Go and Lean.",
